@@ -72,6 +72,8 @@ class EquationSolver(object):
         :return: str
         """
         self.EquationString = equation_string
+        # The variable list belongs to the previous block; it is rebuilt by SolveEquation().
+        self.VariableList = []
         parser = sfc_models.equation_parser.EquationParser()
         msg = parser.ParseString(equation_string)
         parser.ValidateInputs()
